@@ -466,6 +466,7 @@ void World::setup_from_header() {
 					JV auth = JV::obj();
 					for (const char *g : {"fetchGroups", "setGroups", "callGroups"}) {
 						const JV *arr = u.get(g); JV a = JV::arr();
+						if (!arr && u.getb("sparse")) continue;      // the user has no member for this kind of right at all
 						if (arr && arr->t == JV::Arr) for (auto &x : arr->a) { a.push(x); if (x.t == JV::Str) { model.all_groups.insert(x.s); (strcmp(g, "fetchGroups") == 0 ? mu.fg : strcmp(g, "setGroups") == 0 ? mu.sg : mu.cg).insert(x.s); } }
 						auth.set(g, a);
 					}
